@@ -37,10 +37,19 @@ TOWERS = {
     'env/arg': ('\\begin{a}\\f{', 'x', '}\\end{a}'),
     'env/optarg': ('\\begin{a}\\f[', 'x', ']\\end{a}'),
     'end-then-group': ('\\begin{a}\\end{a}{', 'x', '}'),
+    # an environment whose \end carries a *different*, nested argument
+    'begin-end-arg': ('\\begin{a}\\end{', 'a', '}'),
 }
 # towers whose cost is known to double per level on the unfixed parser (D18)
 ALTERNATING = ('env/arg', 'env/optarg', 'end-then-group', 'mathenv/arg',
-               'item-brace')
+               'item-brace', 'begin-end-arg')
+
+# growth oracle (C06): towers unit*d + core + closer*d built from these
+# fragments are parsed at two depths; reader calls must not grow
+# super-polynomially with the depth
+GROWTH_OPEN = ['\\begin{a}', '\\end{', '\\f{', '\\f[', '{', '\\item ', '\\begin{itemize}',
+               '$', '\\[', '\\begin{', '\\section{', '\\def\\x{', '\\textbf', '\\end{a}', '[']
+GROWTH_CLOSE = ['}', ']', '\\end{a}', '\\end{itemize}', '$', '\\]', '']
 
 
 def tower(name, depth):
